@@ -2,9 +2,10 @@
    ExtrOcamlBasic only: bool, option, unit, list, prod, sumbool, sumor map to OCaml's; Z/N/positive/nat
    stay the extracted inductive types. *)
 From Coq Require Import Extraction ExtrOcamlBasic.
-From BS Require Import Base ChronoSpec UtfSpec UtfModel ChronoModel.
+From BS Require Import Base ChronoSpec UtfSpec UtfModel ChronoModel MpModel ChronoMp.
 Extraction Language OCaml.
 Extraction "../ml/gen/chrono_model.ml"
   tp_print tp_parse dur_print dur_parse ts_to ts_from_tp ts_from_dur safe_cast
   tm_print tm_parse rt_print rt_parse tp_parse_wide dur_parse_wide
-  civil_from_days days_from_civil next_day valid_dateb days_of_civil iso_text.
+  civil_from_days days_from_civil next_day valid_dateb days_of_civil iso_text
+  mp_save_chrono mp_load_chrono.
